@@ -1,6 +1,9 @@
 """C01 — decided by PlMachine/PlExpr (TLA+) over generated program families: hostile,control,builtins,extract."""
-from lib import gen
+import os
+
+from lib import gen, vlib
 from checks import machine
+from checks.common import absorb
 
 LEVEL = "model_checking"
 FAMILIES = "hostile,control,builtins,extract".split(",")
@@ -13,3 +16,15 @@ def run(ck):
         machine.run_family(ck, fam, progs, with_signal=(fam == "cancel"))
         ck.cov.setdefault("families", {})[fam] = len(progs)
     machine.describe(ck, FAMILIES)
+    # the boundary of acceptance: every program of the load-time family (valid constructs and offenders in every position, C08's
+    # inputs) is offered to the real loader; whatever it accepts is run and must not crash or hang
+    d = vlib.workdir("acc")
+    src = os.path.join(d, "boundary.ndjson")
+    progs = gen.gen_check(q, ck.seed)
+    gen.write(src, progs)
+    r = vlib.vh_json(["run-if-accepted", src], timeout=1800)
+    absorb(ck, r, "accepted-then-run")
+    ck.note("boundary_programs", r["extra"])
+    ck.cov["rule"] += (" In addition every program of the load-time checking family (offenders and valid constructs in every position, both "
+                       "interpreters) is offered to the real loader and, if the loader accepts it, run under the panic guard: a script "
+                       "the loader lets through must not crash the host either.")
